@@ -316,6 +316,10 @@ def run_case(case, rec, mon=None):
 
         objs += [copied(o, COPY_WAYS[k % 3]) for k, o in enumerate(objs[:4])]  # and as a copied / pickled computer carries them
         rec.count("windows_used_through_a_copy", 4)
+        from ..common import poke
+
+        for o in objs[::2]:
+            poke(o)
         for width in range(case["w0"], case["w1"]):
             for o in objs:
                 o.get_impulse_response(width) if width % 2 else o.get_impulse_response(width=width)
